@@ -4,6 +4,11 @@ import (
 	"context"
 	"fmt"
 	"math/rand"
+	goruntime "runtime"
+	"sync"
+	"sync/atomic"
+
+	"verifharness/qlog"
 
 	"verifharness/enc"
 	. "verifharness/kobj"
@@ -112,4 +117,86 @@ func termCorrespondence(c *Ctx, seed int64) {
 	if nsubs >= 2 {
 		c.DistinctCase(fmt.Sprintf("term-%d", seed))
 	}
+}
+
+// racingCallers: goroutines calling Subscribe() / Clone() / Cache().List() in
+// a loop at full speed (real parallelism, no barrier) on a hand-driven source
+// that is stopped under them.  Afterwards every call must have returned (a
+// result or ErrNotRunning) and whatever was handed out must be shut down: the
+// check-then-act window between "is it shutting down?" and "hand over the
+// request" is only a few instructions wide, so it takes many rounds to hit.
+func racingCallers(c *Ctx, rounds, callers int) {
+	what := fmt.Sprintf("%d goroutines calling Subscribe/Clone/List at full speed while the source is stopped under them, %d rounds", callers, rounds)
+	c.Now(what)
+	var problems []string
+	dl := sched.Bubble(c.T, func() {
+		for r := 0; r < rounds && len(problems) == 0; r++ {
+			ctx, cancel := context.WithCancel(context.Background())
+			src := kcache.NewVerifSource(ctx, qlog.Silent(), (&Filt{Tag: FNull}).Go())
+			src.MakeReady()
+			var returned atomic.Int64
+			var handed sync.Map
+			start := make(chan struct{})
+			for k := 0; k < callers; k++ {
+				k := k
+				go func() {
+					defer returned.Add(1)
+					<-start
+					for {
+						switch k % 3 {
+						case 0:
+							s, err := src.Subscribe()
+							if err != nil {
+								return
+							}
+							handed.Store(s.Done(), "subscription")
+						case 1:
+							cl, err := src.Clone()
+							if err != nil {
+								return
+							}
+							handed.Store(cl.Done(), "clone")
+						default:
+							if _, err := src.Cache().List(); err != nil {
+								return
+							}
+						}
+					}
+				}()
+			}
+			close(start)
+			for k := 0; k < r%40; k++ {
+				goruntime.Gosched()
+			}
+			if r%2 == 0 {
+				src.Stop()
+			} else {
+				cancel()
+				src.Stop()
+			}
+			sched.Settle()
+			if n := int(returned.Load()); n < callers {
+				problems = append(problems, fmt.Sprintf("%d of %d callers of Subscribe()/Clone()/Cache().List() are still blocked after the source stopped and everything settled (round %d)", callers-n, callers, r))
+			}
+			handed.Range(func(k, v interface{}) bool {
+				if !isClosed(k.(<-chan struct{})) {
+					problems = append(problems, fmt.Sprintf("a %s handed out while the source was stopping is not shut down (round %d)", v, r))
+					return false
+				}
+				return true
+			})
+			cancel()
+			sched.Settle()
+		}
+	})
+	c.Rep.Evaluations++
+	replay := map[string]interface{}{"scenario": what}
+	for _, p := range problems {
+		c.Violation("", p+" ["+what+"]", replay)
+	}
+	if dl != "" && len(problems) == 0 {
+		replay["deadlock"] = dl
+		c.Violation("", "goroutines left blocked (bubble deadlock): "+what, replay)
+	}
+	c.DistinctCase("racing-callers")
 }
